@@ -97,6 +97,10 @@ type Obs struct {
 	SaverTypes    map[string]bool
 	TouchKinds    map[string]bool
 	FlowEvents    map[int][]string // per flow: the events logged by its runs, without timestamps and step uuids
+	// for the differential run of the executable model engine (coq/model/InspectExec.v)
+	InFragment bool   // no failure, only msg / wait-timeout resumes accepted, no voice flow, no run without steps
+	MsgTrigger bool
+	Accepted   []bool // the accepted resumes: true = wait timeout, false = msg
 }
 
 func (o *Obs) summary() any {
@@ -337,6 +341,13 @@ func executeWithout(c *Case, without string) (obs *Obs, err error) {
 		}
 		trig = mb.Build()
 	}
+	obs.InFragment = true
+	obs.MsgTrigger = c.Trigger == "msg" && start.Type != "voice"
+	for _, f := range c.Flows {
+		if f.Type == "voice" {
+			obs.InFragment = false
+		}
+	}
 	eng := newEngine(c)
 	session, sprint, err := eng.NewSession(sa, trig)
 	if err != nil {
@@ -385,6 +396,14 @@ func executeWithout(c *Case, without string) (obs *Obs, err error) {
 			return nil, fmt.Errorf("resume-error")
 		}
 		obs.NResumes++
+		switch rs.Kind {
+		case "msg":
+			obs.Accepted = append(obs.Accepted, false)
+		case "timeout":
+			obs.Accepted = append(obs.Accepted, true)
+		default:
+			obs.InFragment = false
+		}
 		if wstep != nil {
 			resumed[wstep.UUID()] = true
 			if wstep.ExitUUID() != "" {
@@ -401,6 +420,16 @@ func executeWithout(c *Case, without string) (obs *Obs, err error) {
 	runIdx := map[flows.RunUUID]int{}
 	for ri, r := range session.Runs() {
 		runIdx[r.UUID()] = ri
+	}
+	for _, r := range session.Runs() {
+		if len(r.Path()) == 0 || r.Status() == flows.RunStatusFailed || r.Status() == flows.RunStatusExpired {
+			obs.InFragment = false
+		}
+		for _, e := range r.Events() {
+			if e.Type() == "failure" {
+				obs.InFragment = false
+			}
+		}
 	}
 	for ri, r := range session.Runs() {
 		fi := flowIndex(c, string(r.FlowReference().UUID))
